@@ -433,6 +433,129 @@ Proof.
     specialize (H b Hb). rewrite app_nil_r in H. exact H.
 Qed.
 
+(* ---------- 3. length-prefixed fields: the 65,535 limit ---------- *)
+(* appendBytes (packet.go:122-129) panics above 0xFFFF; the panic is the model's None *)
+Theorem pack_bytes_defined_iff s : len s <= 65535 <-> exists b, pack_bytes s = Some b.
+Proof.
+  unfold pack_bytes. destruct (len s <=? 65535) eqn:E; split; intros H.
+  - eexists. reflexivity.
+  - lia.
+  - lia.
+  - destruct H as (b & H). discriminate H.
+Qed.
+
+Lemma pack_bytes_long s : 65535 < len s -> pack_bytes s = None.
+Proof. intros H. unfold pack_bytes. destruct (len s <=? 65535) eqn:E; [lia | reflexivity]. Qed.
+
+Lemma long_nonempty s : 65535 < len s -> nonempty s = true.
+Proof. destruct s; [cbn; lia | reflexivity]. Qed.
+
+Definition connect_long (c : connect) : Prop :=
+  65535 < len (c_client_id c) \/
+  (exists w, c_will c = Some w /\ (65535 < len (w_topic w) \/ 65535 < len (w_payload w))) \/
+  65535 < len (c_user c) \/ 65535 < len (c_pass c).
+
+Theorem connect_long_rejected c : connect_long c -> pack_connect c = None.
+Proof.
+  unfold connect_long, pack_connect. intros [H|[(w & Hw & H)|[H|H]]].
+  - rewrite (pack_bytes_long _ H). reflexivity.
+  - destruct (pack_bytes (c_client_id c)); cbn [bind]; [|reflexivity]. rewrite Hw.
+    destruct H as [H|H].
+    + rewrite (pack_bytes_long _ H). reflexivity.
+    + destruct (pack_bytes (w_topic w)); cbn [bind]; [|reflexivity].
+      rewrite (pack_bytes_long _ H). reflexivity.
+  - rewrite (long_nonempty _ H), (pack_bytes_long _ H).
+    destruct (pack_bytes (c_client_id c)); cbn [bind]; [|reflexivity].
+    match goal with |- bind ?x _ = None => destruct x; cbn [bind]; reflexivity end.
+  - rewrite (long_nonempty _ H), (pack_bytes_long _ H).
+    destruct (pack_bytes (c_client_id c)); cbn [bind]; [|reflexivity].
+    match goal with |- bind ?x _ = None => destruct x; cbn [bind]; [|reflexivity] end.
+    match goal with |- bind ?x _ = None => destruct x; cbn [bind]; reflexivity end.
+Qed.
+
+Theorem publish_long_rejected m : 65535 < len (m_topic m) -> pack_publish m = None.
+Proof.
+  intros H. unfold pack_publish. destruct (publish_header_byte m); cbn [bind]; [|reflexivity].
+  rewrite (pack_bytes_long _ H). reflexivity.
+Qed.
+
+Lemma sub_payload_long subs t q : In (t, q) subs -> 65535 < len t -> sub_payload subs = None.
+Proof.
+  induction subs as [|[t0 q0] subs IH]; intros Hin H; [destruct Hin|].
+  cbn [sub_payload]. destruct Hin as [Hin|Hin].
+  - injection Hin as -> ->. rewrite (pack_bytes_long _ H). reflexivity.
+  - destruct (pack_bytes t0); cbn [bind]; [|reflexivity].
+    destruct (q0 <=? 2); [|reflexivity]. rewrite (IH Hin H). reflexivity.
+Qed.
+
+Theorem subscribe_long_rejected id subs t q : In (t, q) subs -> 65535 < len t ->
+  pack_subscribe id subs = None.
+Proof. intros Hin H. unfold pack_subscribe. rewrite (sub_payload_long subs t q Hin H). reflexivity. Qed.
+
+Lemma unsub_payload_long ts t : In t ts -> 65535 < len t -> unsub_payload ts = None.
+Proof.
+  induction ts as [|t0 ts IH]; intros Hin H; [destruct Hin|].
+  cbn [unsub_payload]. destruct Hin as [Hin|Hin].
+  - subst t0. rewrite (pack_bytes_long _ H). reflexivity.
+  - destruct (pack_bytes t0); cbn [bind]; [|reflexivity]. rewrite (IH Hin H). reflexivity.
+Qed.
+
+Theorem unsubscribe_long_rejected id ts t : In t ts -> 65535 < len t -> pack_unsubscribe id ts = None.
+Proof. intros Hin H. unfold pack_unsubscribe. rewrite (unsub_payload_long ts t Hin H). reflexivity. Qed.
+
+(* conversely: with every field within 65,535 bytes the encoders reach pack(), which is defined exactly
+   up to a body of 268,435,455 bytes (pack_defined_iff); the round trip theorems then apply *)
+Definition connect_short (c : connect) : Prop :=
+  len (c_client_id c) <= 65535 /\
+  (forall w, c_will c = Some w -> len (w_topic w) <= 65535 /\ len (w_payload w) <= 65535) /\
+  len (c_user c) <= 65535 /\ len (c_pass c) <= 65535.
+
+Theorem connect_short_packs c : connect_short c -> exists body, pack_connect c = pack 16 body.
+Proof.
+  intros (Hc & Hw & Hu & Hp). unfold pack_connect.
+  destruct (proj1 (pack_bytes_defined_iff _) Hc) as (cid & ->). cbn [bind].
+  assert (Ew : exists wl, match c_will c with
+                          | None => Some []
+                          | Some w => t <- pack_bytes (w_topic w) ;; p <- pack_bytes (w_payload w) ;; Some (t ++ p)
+                          end = Some wl).
+  { destruct (c_will c) as [w|]; [|eexists; reflexivity].
+    destruct (Hw w eq_refl) as [H1 H2].
+    destruct (proj1 (pack_bytes_defined_iff _) H1) as (t & ->).
+    destruct (proj1 (pack_bytes_defined_iff _) H2) as (p & ->). eexists. reflexivity. }
+  destruct Ew as (wl & ->). cbn [bind].
+  assert (Eu : exists us, (if nonempty (c_user c) then pack_bytes (c_user c) else Some []) = Some us).
+  { destruct (nonempty (c_user c)); [apply pack_bytes_defined_iff; exact Hu | eexists; reflexivity]. }
+  destruct Eu as (us & ->). cbn [bind].
+  assert (Ep : exists pw, (if nonempty (c_pass c) then pack_bytes (c_pass c) else Some []) = Some pw).
+  { destruct (nonempty (c_pass c)); [apply pack_bytes_defined_iff; exact Hp | eexists; reflexivity]. }
+  destruct Ep as (pw & ->). cbn [bind]. eexists. reflexivity.
+Qed.
+
+Theorem subscribe_short_packs id subs :
+  Forall (fun tq => len (fst tq) <= 65535 /\ snd tq <= 2) subs ->
+  exists p, pack_subscribe id subs = pack 130 (uint16_bytes id ++ p).
+Proof.
+  intros HF. unfold pack_subscribe.
+  assert (E : exists p, sub_payload subs = Some p).
+  { induction HF as [|[t q] subs [Ht Hq] _ (p & IH)]; [eexists; reflexivity|].
+    cbn [sub_payload fst snd] in *.
+    destruct (proj1 (pack_bytes_defined_iff _) Ht) as (tb & ->). cbn [bind].
+    destruct (q <=? 2) eqn:E; [|lia]. rewrite IH. cbn [bind]. eexists. reflexivity. }
+  destruct E as (p & ->). cbn [bind]. exists p. reflexivity.
+Qed.
+
+Theorem unsubscribe_short_packs id ts : Forall (fun t => len t <= 65535) ts ->
+  exists p, pack_unsubscribe id ts = pack 162 (uint16_bytes id ++ p).
+Proof.
+  intros HF. unfold pack_unsubscribe.
+  assert (E : exists p, unsub_payload ts = Some p).
+  { induction HF as [|t ts Ht _ (p & IH)]; [eexists; reflexivity|].
+    cbn [unsub_payload].
+    destruct (proj1 (pack_bytes_defined_iff _) Ht) as (tb & ->). cbn [bind].
+    rewrite IH. cbn [bind]. eexists. reflexivity. }
+  destruct E as (p & ->). cbn [bind]. exists p. reflexivity.
+Qed.
+
 (* ---------- non-vacuity ---------- *)
 Definition ex_msg (q id : N) (pl : list N) : message :=
   {| m_topic := [116]; m_id := id; m_qos := q; m_retain := false; m_dup := false; m_payload := pl |}.
@@ -463,6 +586,18 @@ Example ex_stream_split :
         BPublish (ex_msg 1 8 [4]); BOther 13 0 []] = true.
 Proof. split; reflexivity. Qed.
 
+(* the boundary itself: 65,535 bytes are carried, 65,536 are rejected *)
+Example ex_field_boundary :
+  (exists b, pack_bytes (repeat 97 (N.to_nat 65535)) = Some b) /\
+  pack_bytes (repeat 97 (N.to_nat 65536)) = None /\
+  pack_subscribe 7 [([97], 1); (repeat 97 (N.to_nat 65536), 0)] = None.
+Proof.
+  split; [apply pack_bytes_defined_iff; vm_compute; discriminate|].
+  split; [apply pack_bytes_long; vm_compute; reflexivity|].
+  apply (subscribe_long_rejected 7 _ (repeat 97 (N.to_nat 65536)) 0); [right; left; reflexivity|].
+  vm_compute. reflexivity.
+Qed.
+
 Example ex_pub_run :
   pub_run (ex_msg 2 7 [1]) (PSend false) [2; 4; 1; 0] =
   [[Some [52; 6; 0; 1; 116; 0; 7; 1]];
@@ -476,3 +611,6 @@ Print Assumptions stream_q2_delivery.
 Print Assumptions stream_hands_encoded.
 Print Assumptions pub_run_shape.
 Print Assumptions retry_packets_decode.
+Print Assumptions connect_long_rejected.
+Print Assumptions subscribe_long_rejected.
+Print Assumptions connect_short_packs.
